@@ -141,14 +141,9 @@ def load_contract(modname, cname):
 
 def run_case_symbolic(contract, case, timeout_ms=20000, seed=0, max_models=3):
     """all paths of one (contract, case); returns a JSON-able result"""
-    from .core import EngineError, explore
+    from .core import EngineError, HarnessError, explore
 
     t0 = time.time()
-    clauses = {}
-    failures = []
-    undecided = []
-    canary = {"done": False, "ok": None}
-    samples = []
 
     def run(p):
         inp = SymInputs(p)
@@ -157,45 +152,69 @@ def run_case_symbolic(contract, case, timeout_ms=20000, seed=0, max_models=3):
             out = Outcome(value=f(*args, **kwargs))
         except Exception as e:  # the code under contract raised: an outcome, not an engine error
             out = Outcome(exc=e)
-        if not canary["done"]:
-            canary["done"] = True
-            canary["ok"] = p.prove(False)[0] != "unsat"  # unsat == contradictory requires
+        # vacuity canary (`ensures False` must be refuted) once per case, on the root path
+        canary = (p.prove(False)[0] != "unsat") if not p.is_child else None
         conds = contract.post(case, ghost, out)
+        verdicts = {}
+        fails = []
         for name, cond in conds.items():
-            st = clauses.setdefault(name, {"paths": 0, "unsat": 0, "sat": 0, "unknown": 0})
-            st["paths"] += 1
             verdict, model = p.prove(cond)
-            st[verdict] += 1
-            if verdict == "sat" and len([f_ for f_ in failures if f_["clause"] == name]) < max_models:
-                failures.append({"clause": name, "model": p.model_inputs(model),
-                                 "outcome": out.describe()[:300], "decisions": len(p.trace)})
-            elif verdict == "unknown":
-                undecided.append({"clause": name, "decisions": len(p.trace)})
-        if len(samples) < 2:
-            samples.append(out.describe()[:200])
-        return None
+            verdicts[name] = verdict
+            if verdict == "sat":
+                fails.append({"clause": name, "model": p.model_inputs(model),
+                              "outcome": out.describe()[:300], "decisions": len(p.trace)})
+        return {"verdicts": verdicts, "fails": fails, "sample": out.describe()[:200],
+                "canary": canary, "notes": p.notes[:3]}
 
     err = None
     stats = {}
+    paths = []
     try:
-        _, stats = explore(run, timeout_ms=timeout_ms, seed=seed)
+        paths, stats = explore(run, timeout_ms=timeout_ms, seed=seed)
     except EngineError as e:
         err = "%s: %s" % (type(e).__name__, e)
-        tb = traceback.format_exc().strip().splitlines()
-        err += " @ " + " | ".join(l.strip() for l in tb[-8:-1] if "File" in l)[-400:]
+        if "@" not in err:
+            tb = traceback.format_exc().strip().splitlines()
+            err += " @ " + " | ".join(l.strip() for l in tb[-8:-1] if "File" in l)[-400:]
+    except HarnessError as e:
+        err = "HARNESS %s" % e
     except Exception as e:  # contract / harness bug
         err = "HARNESS %s: %s" % (type(e).__name__, e)
         err += " @ " + " | ".join(
             l.strip() for l in traceback.format_exc().strip().splitlines()[-8:-1] if "File" in l)[-400:]
+    clauses = {}
+    failures = []
+    undecided = []
+    samples = []
+    canary_ok = None
+    notes = []
+    for pr in paths:
+        if pr.get("canary") is not None:
+            canary_ok = pr["canary"]
+        for name, verdict in pr["verdicts"].items():
+            st = clauses.setdefault(name, {"paths": 0, "unsat": 0, "sat": 0, "unknown": 0})
+            st["paths"] += 1
+            st[verdict] += 1
+            if verdict == "unknown":
+                undecided.append({"clause": name})
+        for f_ in pr["fails"]:
+            if len([x for x in failures if x["clause"] == f_["clause"]]) < max_models:
+                failures.append(f_)
+        if len(samples) < 2:
+            samples.append(pr["sample"])
+        notes.extend(pr.get("notes") or [])
+    if paths and canary_ok is None:
+        canary_ok = True
     return {
         "case": case,
         "clauses": clauses,
         "failures": failures,
         "undecided": undecided,
         "error": err,
-        "canary_ok": canary["ok"],
+        "canary_ok": canary_ok,
         "stats": stats,
         "samples": samples,
+        "notes": notes[:5],
         "wall_s": round(time.time() - t0, 3),
     }
 
